@@ -23,11 +23,15 @@ import (
 	"os"
 	"os/exec"
 	"path/filepath"
+	"reflect"
+	"regexp"
 	"sort"
 	"strings"
 	"sync"
+	"syscall"
 	"testing"
 	"time"
+	"unsafe"
 
 	"github.com/nsqio/go-nsq"
 	"github.com/nsqio/nsq/internal/lg"
@@ -37,6 +41,13 @@ type vfE8Event struct {
 	Kind string `json:"kind"` // msg | adv | tick | hup | termstop
 	Body string `json:"body,omitempty"`
 	Adv  int64  `json:"adv,omitempty"` // ns
+	// msg only: state of the consumer's (single, crafted) connection at this event — decides the real
+	// consumer.IsStarved(): 0 = no connection state change, otherwise index into vfE8StarveShapes
+	Starve int `json:"starve,omitempty"`
+	// fault injected into this event (audit C30.1): "" | "killfin:<n>" (SIGKILL before the n-th Finish of the event) |
+	// "errfirst" (the first system call on f.out fails: EBADF) | "errafterfins" (the first one after the FIN batch fails) |
+	// "killlog:sync" (msg: SIGKILL between the writes and Sync()) | "killlog:move" (SIGKILL in Close() before the move's link)
+	Fault string `json:"fault,omitempty"`
 }
 
 type vfE8Pre struct {
@@ -62,30 +73,69 @@ type vfE8Script struct {
 
 // ---------------------------------------------------------------- shared helpers
 
+// vfE8DecodeStrict reads a gzip output file to its end (audit C29: the old decoder silently stopped at the first
+// thing it could not read). Returns the payload of the complete members and
+//   "ok"      – the file is a sequence of complete members and nothing else (an empty file included);
+//   "torn"    – the file ends inside a member (header, deflate stream or trailer cut short): the state a kill or an
+//               os.Exit leaves behind for the member that was open; its bytes are in no one's payload;
+//   "corrupt" – bytes that are no gzip member where one has to start (garbage after the last member, bad magic),
+//               a bad checksum or a broken deflate stream.
+func vfE8DecodeStrict(raw []byte) ([]byte, string) {
+	var out []byte
+	bb := bufio.NewReader(bytes.NewReader(raw))
+	for {
+		if _, err := bb.Peek(1); err != nil {
+			return out, "ok"
+		}
+		// a member starts with 1f 8b 08; fewer bytes than that are a cut header only if they are a prefix of it
+		// (gzip.NewReader answers "unexpected EOF" for any short tail, garbage included)
+		head, _ := bb.Peek(3)
+		if !bytes.HasPrefix([]byte{0x1f, 0x8b, 0x08}, head) {
+			return out, "corrupt"
+		}
+		zr, err := gzip.NewReader(bb)
+		if err == nil {
+			zr.Multistream(false)
+			var member []byte
+			member, err = io.ReadAll(zr)
+			if err == nil {
+				out = append(out, member...)
+				continue
+			}
+		}
+		if err == io.ErrUnexpectedEOF || err == io.EOF {
+			return out, "torn"
+		}
+		return out, "corrupt"
+	}
+}
+
 // vfE8Decode returns what a reader can decode from the file: plain → the bytes; gzip → the payload
-// of the complete members (a truncated / still open trailing member contributes nothing).
+// of the complete members (a torn trailing member contributes nothing; see vfE8DecodeStrict for the status).
 func vfE8Decode(raw []byte, gz bool) []byte {
 	if !gz {
 		return raw
 	}
-	var out []byte
-	br := bytes.NewReader(raw)
-	bb := bufio.NewReader(br)
-	for {
-		if _, err := bb.Peek(1); err != nil {
-			return out
-		}
-		zr, err := gzip.NewReader(bb)
-		if err != nil {
-			return out
-		}
-		zr.Multistream(false)
-		member, err := io.ReadAll(zr)
-		if err != nil {
-			return out // incomplete member
-		}
-		out = append(out, member...)
+	out, _ := vfE8DecodeStrict(raw)
+	return out
+}
+
+// vfE8GzStatus: relative name → status of vfE8DecodeStrict for every file under root/w and root/o.
+func vfE8GzStatus(root string) map[string]string {
+	res := map[string]string{}
+	for _, d := range []string{"w", "o"} {
+		filepath.Walk(filepath.Join(root, d), func(p string, fi os.FileInfo, err error) error {
+			if err != nil || fi.IsDir() {
+				return nil
+			}
+			if raw, err := os.ReadFile(p); err == nil {
+				rel, _ := filepath.Rel(root, p)
+				_, res[rel] = vfE8DecodeStrict(raw)
+			}
+			return nil
+		})
 	}
+	return res
 }
 
 // vfE8Tree lists root/w and root/o: relative name → decoded content.
@@ -121,13 +171,203 @@ func vfE8TreeLine(tree map[string][]byte, full bool) string {
 	return strings.Join(items, ",")
 }
 
+// vfE8LineStarts lists the offsets of `rec` in `c` that begin a line (offset 0 or preceded by "\n").
+// `rec` always ends in "\n", so such an occurrence is a run of whole lines of the file.
+func vfE8LineStarts(c, rec []byte) []int {
+	var res []int
+	for from := 0; from <= len(c)-len(rec); {
+		i := bytes.Index(c[from:], rec)
+		if i < 0 {
+			break
+		}
+		o := from + i
+		if o == 0 || c[o-1] == '\n' {
+			res = append(res, o)
+		}
+		from = o + 1
+	}
+	return res
+}
+
+// vfE8HasLine: `line` (= body + "\n") occupies whole lines of some file (audit C5/C30: not a mere substring —
+// "rec0\nbodyAbodyB\n" holds neither bodyA nor bodyB).
 func vfE8HasLine(tree map[string][]byte, line []byte) bool {
 	for _, c := range tree {
-		if bytes.Contains(c, line) { // bodies carry a unique "m<i>|" tag
+		if len(vfE8LineStarts(c, line)) > 0 {
 			return true
 		}
 	}
 	return false
+}
+
+// vfE8OwnLines is the multiset form: every record recs[i] (= body + "\n") must be placed at a line start of
+// some file, the placed byte ranges pairwise disjoint (three finished messages need three records; an empty
+// body needs an empty line of its own). Returns the indices that could not be placed. Most-constrained
+// records first (fewest candidate offsets, longest first); the only records with several candidates are
+// equal ones (empty bodies), for which any choice of free offsets is as good as any other.
+func vfE8OwnLines(tree map[string][]byte, recs [][]byte) []int {
+	names := make([]string, 0, len(tree))
+	for n := range tree {
+		names = append(names, n)
+	}
+	sort.Strings(names)
+	type cand struct{ file, off int }
+	cands := make([][]cand, len(recs))
+	for i, rec := range recs {
+		for fi, n := range names {
+			for _, o := range vfE8LineStarts(tree[n], rec) {
+				cands[i] = append(cands[i], cand{fi, o})
+			}
+		}
+	}
+	order := make([]int, len(recs))
+	for i := range order {
+		order[i] = i
+	}
+	sort.SliceStable(order, func(a, b int) bool {
+		ia, ib := order[a], order[b]
+		if len(cands[ia]) != len(cands[ib]) {
+			return len(cands[ia]) < len(cands[ib])
+		}
+		return len(recs[ia]) > len(recs[ib])
+	})
+	used := make([][]bool, len(names))
+	for fi, n := range names {
+		used[fi] = make([]bool, len(tree[n]))
+	}
+	var missing []int
+	for _, i := range order {
+		placed := false
+		for _, c := range cands[i] {
+			free := true
+			for k := c.off; k < c.off+len(recs[i]); k++ {
+				if used[c.file][k] {
+					free = false
+					break
+				}
+			}
+			if free {
+				for k := c.off; k < c.off+len(recs[i]); k++ {
+					used[c.file][k] = true
+				}
+				placed = true
+				break
+			}
+		}
+		if !placed {
+			missing = append(missing, i)
+		}
+	}
+	sort.Ints(missing)
+	return missing
+}
+
+// ---------------------------------------------------------------- seams: starvation, faults, branch trace
+
+// vfE8StarveShapes: (RDY, messages in flight, closing) of the consumer's connection. go-nsq's rule
+// (consumer.go IsStarved): inFlight >= int64(float64(RDY)*0.85) && inFlight > 0 && !closing.
+var vfE8StarveShapes = [][3]int64{
+	{0, 0, 0},   // index 0 is "leave as is" in a script; as a shape: idle connection
+	{10, 9, 0},  // starved
+	{10, 8, 0},  // starved: exactly at the threshold int64(8.5) = 8
+	{10, 7, 0},  // not starved: one below
+	{1, 1, 0},   // starved (max-in-flight 1 style)
+	{200, 1, 0}, // not starved
+	{10, 9, 1},  // closing: not starved
+	{0, 3, 0},   // RDY 0 with messages in flight (backoff): starved
+	{5, 0, 0},   // nothing in flight: not starved
+}
+
+// vfE8Conn is a connection object of the real go-nsq Consumer, registered in its (unexported) connection map so
+// that the router's own `f.consumer.IsStarved()` call evaluates the real rule on it. It is never dialled.
+type vfE8Conn struct {
+	c    *nsq.Conn
+	cons *nsq.Consumer
+}
+
+func vfE8Field(obj interface{}, name string) reflect.Value {
+	fv := reflect.ValueOf(obj).Elem().FieldByName(name)
+	return reflect.NewAt(fv.Type(), unsafe.Pointer(fv.UnsafeAddr())).Elem()
+}
+
+func vfE8NewConn(cons *nsq.Consumer, cfg *nsq.Config) *vfE8Conn {
+	return &vfE8Conn{c: nsq.NewConn("127.0.0.1:1", cfg, nil), cons: cons}
+}
+
+func (v *vfE8Conn) attach(on bool) {
+	mtx := vfE8Field(v.cons, "mtx").Addr().Interface().(*sync.RWMutex)
+	mtx.Lock()
+	defer mtx.Unlock()
+	m := vfE8Field(v.cons, "connections")
+	if on {
+		m.SetMapIndex(reflect.ValueOf("127.0.0.1:1"), reflect.ValueOf(v.c))
+	} else {
+		m.SetMapIndex(reflect.ValueOf("127.0.0.1:1"), reflect.Value{}) // Stop() must not try to write CLS to it
+	}
+}
+
+func (v *vfE8Conn) set(shape [3]int64) {
+	vfE8Field(v.c, "rdyCount").SetInt(shape[0])
+	vfE8Field(v.c, "messagesInFlight").SetInt(shape[1])
+	vfE8Field(v.c, "closeFlag").SetInt(shape[2])
+}
+
+// vfE8BreakOut makes later system calls on the descriptor of f.out fail; the returned function puts the real file
+// back. writesOnly = false: the number now refers to an O_PATH descriptor — write, fsync: EBADF. writesOnly = true:
+// it refers to a read-only descriptor of the SAME file — write(2) fails with EBADF, fsync and close succeed (the
+// "disk full, fsync fine" shape: a tool that drops the write error would sync, FIN and have lost the record).
+func vfE8BreakOut(out *os.File, writesOnly bool) (restore func()) {
+	fd := int(out.Fd())
+	if fd < 0 {
+		return func() {}
+	}
+	saved, err := syscall.Dup(fd)
+	if err != nil {
+		return func() {}
+	}
+	const oPath = 0x200000
+	var pfd int
+	if writesOnly {
+		pfd, err = syscall.Open(out.Name(), syscall.O_RDONLY, 0)
+	} else {
+		pfd, err = syscall.Open("/", oPath, 0)
+	}
+	if err != nil {
+		syscall.Close(saved)
+		return func() {}
+	}
+	syscall.Dup3(pfd, fd, 0)
+	syscall.Close(pfd)
+	return func() {
+		syscall.Dup3(saved, fd, 0)
+		syscall.Close(saved)
+	}
+}
+
+func vfE8OutOpen(f *FileLogger) bool {
+	return f.out != nil && int(f.out.Fd()) >= 0
+}
+
+// vfE8GzFresh: gzip mode, no Write since the member was started (the next Write puts the header on the file
+// by a write(2) of its own; later Writes only fill the compressor's buffer).
+func vfE8GzFresh(f *FileLogger) bool {
+	if f.gzipWriter == nil {
+		return false
+	}
+	return !reflect.ValueOf(f.gzipWriter).Elem().FieldByName("wroteHeader").Bool()
+}
+
+var vfE8SlugRe = regexp.MustCompile(`[^a-zA-Z]+`)
+
+// vfE8LogSlug turns the format string of a log call of the tool into a branch name.
+func vfE8LogSlug(format string) string {
+	format = strings.TrimPrefix(format, "[%s/%s] ")
+	format = strings.NewReplacer("%s", "", "%d", "", "%v", "").Replace(format)
+	w := strings.FieldsFunc(vfE8SlugRe.ReplaceAllString(format, " "), func(r rune) bool { return r == ' ' })
+	if len(w) > 6 {
+		w = w[:6]
+	}
+	return strings.ToLower(strings.Join(w, "-"))
 }
 
 // ---------------------------------------------------------------- child
@@ -138,6 +378,13 @@ type vfE8Rec struct {
 	root string
 	gz   bool
 	fins []string
+	done [][]byte // records (body + "\n") of every message finished so far, this one included
+	// fault injection, armed per event by the script driver
+	evFins   int    // Finish calls seen in the current event
+	killAt   int    // > 0: SIGKILL this process before the killAt-th Finish of the event is recorded
+	swapAt   int    // > 0: at the swapAt-th Finish of the event make every later system call on f.out fail
+	swapFunc func() // does the swap
+	total    int
 }
 
 func (r *vfE8Rec) OnFinish(m *nsq.Message) {
@@ -146,10 +393,23 @@ func (r *vfE8Rec) OnFinish(m *nsq.Message) {
 	id := strings.TrimRight(string(m.ID[:]), "\x00")
 	line := append(append([]byte{}, m.Body...), '\n')
 	ok := "ok"
-	if !vfE8HasLine(vfE8Tree(r.root, r.gz), line) {
+	r.mu.Lock()
+	r.evFins++
+	if r.killAt > 0 && r.evFins == r.killAt {
+		// a real SIGKILL, before this Finish counts: the model's `Fault.kill` at this primitive
+		fmt.Fprintf(r.res, "KILLSELF\n")
+		syscall.Kill(os.Getpid(), syscall.SIGKILL)
+		select {}
+	}
+	if r.swapAt > 0 && r.evFins == r.swapAt && r.swapFunc != nil {
+		r.swapFunc()
+	}
+	r.total++
+	r.done = append(r.done, line)
+	// line-based and multiset: this record AND every record finished before it own disjoint whole lines
+	if len(vfE8OwnLines(vfE8Tree(r.root, r.gz), r.done)) > 0 {
 		ok = "MISSING"
 	}
-	r.mu.Lock()
 	r.fins = append(r.fins, id)
 	fmt.Fprintf(r.res, "FIN %s %s\n", id, ok) // unbuffered write(2): also the FIN marker of the syscall leg
 	r.mu.Unlock()
@@ -234,7 +494,18 @@ func TestVerifToFileChild(t *testing.T) {
 	opts.Channel = "c"
 	cfg := nsq.NewConfig()
 	cfg.MaxInFlight = opts.MaxInFlight
-	logf := func(lvl lg.LogLevel, f string, args ...interface{}) {}
+	// every log call of the tool is a branch marker (audit C30.3): which rotation reason, which collision loop,
+	// which fatal exit was taken — straight from the real code, keyed by its format string
+	killSlug := "" // fault `killlog:*`: SIGKILL at this log call of the tool (a position between two system calls)
+	logf := func(lvl lg.LogLevel, f string, args ...interface{}) {
+		slug := vfE8LogSlug(f)
+		fmt.Fprintf(res, "LOG %s %s\n", lvl.String(), slug)
+		if killSlug != "" && slug == killSlug {
+			fmt.Fprintf(res, "KILLSELF\n")
+			syscall.Kill(os.Getpid(), syscall.SIGKILL)
+			select {}
+		}
+	}
 	f, err := NewFileLogger(logf, opts, "t", cfg)
 	if err != nil {
 		fmt.Fprintf(res, "SETUP-ERROR %s\n", err)
@@ -250,8 +521,10 @@ func TestVerifToFileChild(t *testing.T) {
 	}
 	say := func(op string) { fmt.Fprintf(res, "OP %s\n", op) }
 	ans := func(a string) { fmt.Fprintf(res, "ANS %s\n", a) }
-	say(fmt.Sprintf("tf conf %d %d %d %d %d %d %d %d", b(sc.GZIP), sc.RotateSize, sc.RotateInterval, b(sc.WorkDir),
-		b(sc.SkipEmpty), sc.MaxInFlight, b(hasRev), b(vfE8ProbeCloseClears())))
+	// c19a: probes — 9th/10th model parameter: router() writes a record with one Write (fix F46), updateFile() seals a
+	// torn tail before appending (fix F47); both probed on the real code (harness/e8/tofile_lines_test.go)
+	say(fmt.Sprintf("tf conf %d %d %d %d %d %d %d %d %d %d", b(sc.GZIP), sc.RotateSize, sc.RotateInterval, b(sc.WorkDir),
+		b(sc.SkipEmpty), sc.MaxInFlight, b(hasRev), b(vfE8ProbeCloseClears()), b(vfE8ProbeOneWrite()), b(vfE8ProbeSealsTail())))
 	ans("ok")
 	start := time.Now()
 	for _, p := range sc.Pre {
@@ -285,6 +558,8 @@ func TestVerifToFileChild(t *testing.T) {
 	}
 
 	rec := &vfE8Rec{res: res, root: root, gz: sc.GZIP}
+	fconn := vfE8NewConn(f.consumer, cfg)
+	fconn.attach(true)
 	done := make(chan struct{})
 	fmt.Fprintf(res, "START\n") // syscall leg: everything before this write(2) is harness set-up
 	go func() {
@@ -303,6 +578,19 @@ func TestVerifToFileChild(t *testing.T) {
 		}
 	}
 	state := func() string {
+		if sc.GZIP {
+			// strict decodability at every event boundary (audit C29): nothing is ever corrupt, and only the file the
+			// router has open may end in an unfinished member
+			open := ""
+			if f.out != nil {
+				open, _ = filepath.Rel(root, f.out.Name())
+			}
+			for name, st := range vfE8GzStatus(root) {
+				if st == "corrupt" || (st == "torn" && name != open) {
+					fmt.Fprintf(res, "GZBAD %s %s\n", name, st)
+				}
+			}
+		}
 		return fmt.Sprintf("st=%s fin=[%s] files=%s", status(), rec.takeFins(), vfE8TreeLine(vfE8Tree(root, sc.GZIP), false))
 	}
 	tick := func() {
@@ -314,23 +602,108 @@ func TestVerifToFileChild(t *testing.T) {
 		ans(state())
 	}
 	nmsg := 0
+	// arm injects the event's fault; it returns the function that disarms it if the process survived the event.
+	// The op `tf fault <kind> <where>` tells the model which primitive of the coming event gets which Fault; the
+	// model resolves "n-th Finish" / "first primitive after the FIN batch" to a primitive index by itself.
+	var arm0 func(ev vfE8Event, body []byte) func()
+	arm := func(ev vfE8Event, body []byte) func() {
+		undo := arm0(ev, body)
+		return func() { // the process survived the event: the fault (if it did not fire) is over
+			undo()
+			rec.mu.Lock()
+			rec.killAt, rec.swapAt, rec.swapFunc = 0, 0, nil
+			rec.mu.Unlock()
+			killSlug = ""
+		}
+	}
+	arm0 = func(ev vfE8Event, body []byte) func() {
+		rec.mu.Lock()
+		rec.evFins, rec.killAt, rec.swapAt, rec.swapFunc = 0, 0, 0, nil
+		pending := nmsg - rec.total
+		if ev.Kind == "msg" {
+			pending--
+		}
+		rec.mu.Unlock()
+		switch {
+		case strings.HasPrefix(ev.Fault, "killfin:"):
+			n := 1
+			fmt.Sscanf(ev.Fault, "killfin:%d", &n)
+			say(fmt.Sprintf("tf fault kill fin %d", n))
+			ans("ok")
+			rec.killAt = n
+		case ev.Fault == "killlog:sync" && ev.Kind == "msg":
+			// between the two write(2)s of the record and Sync(): written, not fsynced, not finished
+			say("tf fault kill sync")
+			ans("ok")
+			killSlug = "syncing-records-to-disk"
+		case ev.Fault == "killlog:move":
+			// Close(): gzip member closed, fsynced, descriptor closed — killed before the link that starts the move
+			say("tf fault kill move")
+			ans("ok")
+			killSlug = "moving-finished-file-to"
+		case ev.Fault == "errfirst":
+			// only where the first primitive of the event is a system call on f.out
+			ok := vfE8OutOpen(f)
+			if ok && ev.Kind == "msg" && !f.needsRotation() {
+				ok = len(body) > 0 && (!sc.GZIP || vfE8GzFresh(f)) // a buffered gzip Write is no system call
+			}
+			if ok && ev.Kind == "tick" {
+				ok = pending > 0
+			}
+			if !ok {
+				fmt.Fprintf(res, "FAULTSKIP errfirst\n")
+				return func() {}
+			}
+			say("tf fault err first")
+			ans("ok")
+			// the first primitive is a write (plain: the body; gzip: header / member close) → only writes fail;
+			// it is an fsync (plain, every other case) → everything fails
+			writesOnly := sc.GZIP || (ev.Kind == "msg" && !f.needsRotation())
+			fmt.Fprintf(res, "FAULTSHAPE errfirst writes-only=%v\n", writesOnly)
+			return vfE8BreakOut(f.out, writesOnly)
+		case ev.Fault == "errafterfins":
+			say("tf fault err afterfins")
+			ans("ok")
+			var restore func()
+			rec.swapAt = 1
+			rec.swapFunc = func() {
+				if vfE8OutOpen(f) {
+					restore = vfE8BreakOut(f.out, sc.GZIP) // next on f.out: gzip → member close (a write); plain → fsync
+				}
+			}
+			return func() {
+				if restore != nil {
+					restore()
+				}
+			}
+		}
+		return func() {}
+	}
 	for _, ev := range sc.Events {
 		if status() == "done" {
 			break
 		}
 		switch ev.Kind {
 		case "msg":
-			nmsg++
 			body, _ := hex.DecodeString(ev.Body)
+			if ev.Starve > 0 && ev.Starve < len(vfE8StarveShapes) {
+				fconn.set(vfE8StarveShapes[ev.Starve])
+			}
+			nmsg++
+			disarm := arm(ev, body)
 			var id nsq.MessageID
 			copy(id[:], fmt.Sprintf("%d", nmsg))
 			m := nsq.NewMessage(id, body)
 			m.Delegate = rec
-			say(fmt.Sprintf("tf msg %d %s %d %s 0", nmsg, vfHex(body), time.Now().UnixNano(), vfHex([]byte(f.currentFilename()))))
+			// last field: what the real consumer.IsStarved() answers right now (the router asks it after the write)
+			starved := f.consumer.IsStarved()
+			fmt.Fprintf(res, "STARVE shape=%d starved=%v\n", ev.Starve, starved)
+			say(fmt.Sprintf("tf msg %d %s %d %s %d", nmsg, vfHex(body), time.Now().UnixNano(), vfHex([]byte(f.currentFilename())), b(starved)))
 			if err := f.HandleMessage(m); err != nil {
 				t.Fatal(err)
 			}
 			barrier()
+			disarm()
 			ans(state())
 		case "adv":
 			left := time.Duration(ev.Adv)
@@ -345,7 +718,9 @@ func TestVerifToFileChild(t *testing.T) {
 				}
 			}
 		case "tick":
+			disarm := arm(ev, nil)
 			tick()
+			disarm()
 		case "ext":
 			// another process drops a file into the output dir under the very name the open work
 			// file will be moved to (or, without a work dir, the name of the next revision)
@@ -378,14 +753,19 @@ func TestVerifToFileChild(t *testing.T) {
 			fmt.Fprintf(res, "EXTE\n")
 			ans(state())
 		case "hup":
+			disarm := arm(ev, nil)
 			say("tf hup")
 			f.hupChan <- true
 			barrier()
+			disarm()
 			ans(state())
 		case "termstop":
+			disarm := arm(ev, nil)
 			say("tf termstop")
+			fconn.attach(false) // consumer.Stop() would send CLS to every connection; this one was never dialled
 			close(f.termChan)
 			<-done
+			disarm()
 			ans(state())
 		}
 	}
@@ -410,11 +790,27 @@ func vfE8GenScript(r *vfRand) vfE8Script {
 	sc.WorkDir = r.Intn(2) == 0
 	sc.SkipEmpty = r.Intn(3) == 0
 	sc.MaxInFlight = []int{1, 2, 3, 5, 200}[r.Intn(5)]
+	if r.Intn(25) == 0 {
+		sc.MaxInFlight = 0 // `output[pos] = m` panics on the first message (model: Status.panicked)
+	}
+	// Rebalancing (audit C30.3): on a tree without fix F44 a work-dir script dies at the first use of the file after a
+	// SIGHUP (or after a skip-empty close). Three of four work-dir scripts therefore get their HUPs only in the last
+	// third, and half of the work-dir + skip-empty combinations drop skip-empty, so that most scripts reach their
+	// late events on both trees; the rest keeps the early deaths.
+	lateHup := sc.WorkDir && r.Intn(4) != 0
+	if sc.WorkDir && sc.SkipEmpty && r.Intn(2) == 0 {
+		sc.SkipEmpty = false
+	}
 	sc.SyncInterval = int64([]int{10, 30}[r.Intn(2)]) * int64(time.Second)
 	sc.DatetimeFormat = []string{"%Y-%m-%d_%H", "%H%M", "%M%S", "x", "%Y-%m-%d_%H"}[r.Intn(5)]
 	sc.FilenameFormat = []string{"<TOPIC>.<HOST><REV>.<DATETIME>.log", "<TOPIC><REV>.<DATETIME>", "<DATETIME>.<TOPIC><REV>.log"}[r.Intn(3)]
 	if !sc.GZIP && sc.RotateSize == 0 && sc.RotateInterval == 0 && !sc.WorkDir && r.Intn(2) == 0 {
 		sc.FilenameFormat = "<TOPIC>.<DATETIME>.log" // <REV> is optional here
+	}
+	appendMode := !sc.GZIP && sc.RotateInterval == 0
+	extTail := ""
+	if appendMode {
+		extTail = "\n"
 	}
 	// pre-existing files with colliding names (now and in the near future)
 	for i, n := 0, r.Intn(6); i < n; i++ {
@@ -422,7 +818,10 @@ func vfE8GenScript(r *vfRand) vfE8Script {
 			AtSec: []int64{0, 0, 0, 1, 10, 60}[r.Intn(6)]}
 		sz := []int{0, 3, 20, 150}[r.Intn(4)]
 		pl := r.Bytes(sz)
-		if sz > 0 && r.Intn(2) == 0 {
+		// A pre-existing file that the tool may re-open with O_APPEND (plain output, no rotate-interval) is
+		// empty or newline-terminated in this stream: a torn tail there is the separate finding
+		// `torn-tail-append` (its own leg); with O_EXCL the file is never written to, so anything goes.
+		if sz > 0 && (appendMode || r.Intn(2) == 0) {
 			pl[sz-1] = '\n'
 		}
 		p.Data = hex.EncodeToString(pl)
@@ -437,18 +836,26 @@ func vfE8GenScript(r *vfRand) vfE8Script {
 			if r.Intn(12) == 0 {
 				body = nil // empty body: the record is a bare newline
 			}
-			sc.Events = append(sc.Events, vfE8Event{Kind: "msg", Body: hex.EncodeToString(body)})
+			ev := vfE8Event{Kind: "msg", Body: hex.EncodeToString(body)}
+			if r.Intn(2) == 0 {
+				ev.Starve = 1 + r.Intn(len(vfE8StarveShapes)-1) // drives the real consumer.IsStarved() both ways
+			}
+			sc.Events = append(sc.Events, ev)
 		case k < 14:
 			adv := []int64{1e6, 4e8, 1e9, 2e9, 7e9, 31e9, 61e9, 125e9}[r.Intn(8)]
 			sc.Events = append(sc.Events, vfE8Event{Kind: "adv", Adv: adv})
 		case k < 17:
 			sc.Events = append(sc.Events, vfE8Event{Kind: "tick"})
 		case k < 18:
-			sc.Events = append(sc.Events, vfE8Event{Kind: "hup"})
+			if lateHup && i < 2*n/3 {
+				sc.Events = append(sc.Events, vfE8Event{Kind: "tick"})
+			} else {
+				sc.Events = append(sc.Events, vfE8Event{Kind: "hup"})
+			}
 		case k < 19:
-			sc.Events = append(sc.Events, vfE8Event{Kind: "ext", Adv: int64(r.Intn(2)), Body: hex.EncodeToString(append([]byte("ext|"), r.Bytes(r.Intn(12))...))})
+			sc.Events = append(sc.Events, vfE8Event{Kind: "ext", Adv: int64(r.Intn(2)), Body: hex.EncodeToString(append(append([]byte("ext|"), r.Bytes(r.Intn(12))...), extTail...))})
 			if r.Intn(2) == 0 {
-				sc.Events = append(sc.Events, vfE8Event{Kind: "ext", Adv: 1, Body: hex.EncodeToString([]byte("ext2|"))})
+				sc.Events = append(sc.Events, vfE8Event{Kind: "ext", Adv: 1, Body: hex.EncodeToString([]byte("ext2|" + extTail))})
 			}
 		default:
 			if i > n/2 {
@@ -460,6 +867,61 @@ func vfE8GenScript(r *vfRand) vfE8Script {
 	if r.Intn(2) == 0 && (len(sc.Events) == 0 || sc.Events[len(sc.Events)-1].Kind != "termstop") {
 		sc.Events = append(sc.Events, vfE8Event{Kind: "termstop"})
 	}
+	// Fault injection (audit C30.1): one script in three gets one faulted event, inserted in its second half: the
+	// process is SIGKILLed before the n-th Finish of that event, or the first system call on f.out (or the first one
+	// after the FIN batch) fails. The script ends there (the tool is dead), which is why only a third gets one.
+	if r.Intn(3) == 0 && len(sc.Events) > 0 {
+		fault := []string{"killfin:1", "killfin:1", "killfin:2", "killfin:3", "errfirst", "errfirst", "errfirst", "errafterfins", "errafterfins",
+			"killlog:sync", "killlog:sync", "killlog:move", "killlog:move"}[r.Intn(13)]
+		kind := []string{"tick", "tick", "hup", "hup", "msg", "termstop"}[r.Intn(6)]
+		if fault == "killlog:sync" {
+			kind = "msg"
+		}
+		if fault == "killlog:move" {
+			kind = []string{"hup", "hup", "termstop", "tick", "msg"}[r.Intn(5)]
+			if r.Intn(3) != 0 && strings.Contains(sc.FilenameFormat, "<REV>") {
+				sc.WorkDir = true // the move only exists with a work dir (which needs <REV> in the format)
+			}
+		}
+		var burst []vfE8Event
+		if strings.HasPrefix(fault, "killfin:") || fault == "errafterfins" {
+			// make sure a FIN batch is waiting: n un-starved messages right before (as far as max-in-flight allows)
+			n := 1
+			fmt.Sscanf(fault, "killfin:%d", &n)
+			if sc.MaxInFlight > 0 && n > sc.MaxInFlight {
+				n = sc.MaxInFlight
+				if fault != "errafterfins" {
+					fault = fmt.Sprintf("killfin:%d", n)
+				}
+			}
+			if kind == "msg" {
+				n--
+			}
+			for j := 0; j < n+r.Intn(2); j++ {
+				burst = append(burst, vfE8Event{Kind: "msg", Starve: 3, // shape 3: not starved
+					Body: hex.EncodeToString(append([]byte(fmt.Sprintf("mb%d|", j)), r.Bytes(r.Intn(9))...))})
+			}
+		}
+		ev := vfE8Event{Kind: kind, Fault: fault}
+		if kind == "msg" {
+			ev.Body = hex.EncodeToString(append([]byte("mf|"), r.Bytes(1+r.Intn(20))...))
+			ev.Starve = 1 + r.Intn(len(vfE8StarveShapes)-1)
+		}
+		last := len(sc.Events)
+		if sc.Events[last-1].Kind == "termstop" {
+			last--
+		}
+		at := last
+		if kind != "termstop" && last > 0 {
+			at = last/2 + r.Intn(last-last/2+1)
+		}
+		ins := append(burst, ev)
+		if kind == "termstop" {
+			sc.Events = append(sc.Events[:last:last], ins...)
+		} else {
+			sc.Events = append(sc.Events[:at:at], append(ins, sc.Events[at:]...)...)
+		}
+	}
 	return sc
 }
 
@@ -468,6 +930,7 @@ type vfE8Result struct {
 	oracle    []string // direct-oracle failures
 	exit      string
 	finOK     int
+	hist      map[string]int // branch / starvation / fault histogram of this script (from the child's markers)
 }
 
 // vfE8RunCase runs one script in a child process (optionally under strace) and reconstructs the
@@ -515,8 +978,27 @@ func vfE8RunCase(dir string, idx int, sc vfE8Script, strace bool) vfE8Result {
 	finished := map[string]bool{}
 	pendingOp := false
 	ended := false
+	killedSelf := false
+	out.hist = map[string]int{}
+	reached := map[string]bool{}
 	for _, l := range strings.Split(string(res), "\n") {
 		switch {
+		case l == "KILLSELF":
+			killedSelf = true
+		case strings.HasPrefix(l, "LOG "):
+			w := strings.Fields(l)
+			if len(w) == 3 {
+				out.hist["branch:"+w[1]+":"+w[2]]++
+				reached[w[2]] = true
+			}
+		case strings.HasPrefix(l, "STARVE "):
+			out.hist["starve:"+strings.Replace(l[7:], " ", ":", -1)]++
+		case strings.HasPrefix(l, "GZBAD "):
+			out.oracle = append(out.oracle, "gzip output file is not decompressible while the tool runs: "+l[6:])
+		case strings.HasPrefix(l, "FAULTSHAPE "):
+			out.hist["fault:shape:"+strings.Replace(l[11:], " ", ":", -1)]++
+		case strings.HasPrefix(l, "FAULTSKIP "):
+			out.hist["fault:skipped:"+l[10:]]++
 		case strings.HasPrefix(l, "OP "):
 			out.ops = append(out.ops, l[3:])
 			pendingOp = true
@@ -544,11 +1026,19 @@ func vfE8RunCase(dir string, idx int, sc vfE8Script, strace bool) vfE8Result {
 			ended = true
 		}
 	}
+	for b := range reached {
+		out.hist["reach:"+b]++
+	}
+	if killedSelf && pendingOp {
+		out.exit = "sigkill"
+	}
 	tree := vfE8Tree(root, sc.GZIP)
 	if pendingOp {
 		st := "fatal"
 		if out.exit == "2" {
 			st = "panic"
+		} else if out.exit == "sigkill" {
+			st = "killed"
 		} else if out.exit != "1" {
 			st = "died-" + out.exit
 		}
@@ -557,6 +1047,25 @@ func vfE8RunCase(dir string, idx int, sc vfE8Script, strace bool) vfE8Result {
 		out.impl = append(out.impl, fmt.Sprintf("st=%s tree=%s", st, vfE8TreeLine(tree, true)))
 	} else if !ended && out.exit != "0" {
 		out.oracle = append(out.oracle, "child ended abnormally: exit "+out.exit)
+	}
+	// gzip: after the stop every file decodes to its end; only a process that died (kill / os.Exit / panic) or was
+	// stopped without shutdown may leave ONE file ending in an unfinished member, and that member holds no finished
+	// record (the presence oracle below only looks at complete members)
+	if sc.GZIP {
+		torn := 0
+		for name, st := range vfE8GzStatus(root) {
+			out.hist["gz-file:"+st]++
+			if st == "corrupt" {
+				out.oracle = append(out.oracle, "gzip output file "+name+" is corrupt after the stop (garbage or broken member)")
+			}
+			if st == "torn" {
+				torn++
+			}
+		}
+		cleanStop := len(out.impl) > 0 && strings.HasPrefix(out.impl[len(out.impl)-1], "st=done")
+		if torn > 1 || (torn > 0 && cleanStop) {
+			out.oracle = append(out.oracle, fmt.Sprintf("%d gzip output file(s) end in an unfinished member after the stop (clean stop: %v)", torn, cleanStop))
+		}
 	}
 	// end-state oracle: every finished message's record is in the final tree (after the stop)
 	msgs := map[string][]byte{}
@@ -570,10 +1079,17 @@ func vfE8RunCase(dir string, idx int, sc vfE8Script, strace bool) vfE8Result {
 			msgs[w[2]] = body
 		}
 	}
+	var finIDs []string
 	for id := range finished {
-		if !vfE8HasLine(tree, append(append([]byte{}, msgs[id]...), '\n')) {
-			out.oracle = append(out.oracle, "finished message "+id+" is not in any file after the stop")
-		}
+		finIDs = append(finIDs, id)
+	}
+	sort.Strings(finIDs)
+	finRecs := make([][]byte, len(finIDs))
+	for i, id := range finIDs {
+		finRecs[i] = append(append([]byte{}, msgs[id]...), '\n')
+	}
+	for _, i := range vfE8OwnLines(tree, finRecs) {
+		out.oracle = append(out.oracle, "finished message "+finIDs[i]+" owns no whole line of any file after the stop")
 	}
 	// no-overwrite oracle: pre-existing files keep their bytes as a prefix (exclusive mode: unchanged)
 	for _, op := range out.ops {
@@ -614,9 +1130,63 @@ func vfE8RunCase(dir string, idx int, sc vfE8Script, strace bool) vfE8Result {
 	return out
 }
 
+// vfE8DecoderSelfTest pins the three answers of the strict decoder on crafted files (audit C29): two members cut at
+// every length, garbage behind them, a flipped checksum byte.
+func vfE8DecoderSelfTest() (cases int, bad []string) {
+	var zb bytes.Buffer
+	for _, pl := range []string{"m0|a\nm1|b\n", "m2|c\n"} {
+		zw := gzip.NewWriter(&zb)
+		zw.Write([]byte(pl))
+		zw.Close()
+	}
+	full := zb.Bytes()
+	first := 0 // length of the first member
+	for n := 1; n < len(full); n++ {
+		if p, st := vfE8DecodeStrict(full[:n]); st == "ok" && len(p) > 0 {
+			first = n
+			break
+		}
+	}
+	for n := 0; n <= len(full); n++ {
+		p, st := vfE8DecodeStrict(full[:n])
+		want, wantLen := "torn", 0
+		if n >= first {
+			wantLen = 10
+		}
+		if n == 0 || n == first || n == len(full) {
+			want = "ok"
+		}
+		if n == len(full) {
+			wantLen = 15
+		}
+		cases++
+		if st != want || len(p) != wantLen {
+			bad = append(bad, fmt.Sprintf("prefix %d of %d: %s/%d, want %s/%d", n, len(full), st, len(p), want, wantLen))
+		}
+	}
+	for _, tail := range []string{"x", "# closed\n", "\x00", "\x1f\x8b\x07"} {
+		cases++
+		if p, st := vfE8DecodeStrict(append(append([]byte{}, full...), tail...)); st != "corrupt" || len(p) != 15 {
+			bad = append(bad, fmt.Sprintf("garbage %q behind the last member: %s/%d, want corrupt/15", tail, st, len(p)))
+		}
+	}
+	flipped := append([]byte{}, full...)
+	flipped[first-8] ^= 0xff // CRC32 of the first member
+	cases++
+	if p, st := vfE8DecodeStrict(flipped); st != "corrupt" || len(p) != 0 {
+		bad = append(bad, fmt.Sprintf("flipped checksum: %s/%d, want corrupt/0", st, len(p)))
+	}
+	return
+}
+
 func TestVerifToFileCorr(t *testing.T) {
 	if os.Getenv("VF_E8_CASE") != "" {
 		t.Skip("parent only")
+	}
+	if n, bad := vfE8DecoderSelfTest(); len(bad) > 0 {
+		t.Fatalf("strict gzip decoder self-test: %v", bad)
+	} else {
+		fmt.Printf("HIST gz-decoder-selftest-cases %d\n", n)
 	}
 	dir := os.Getenv("VERIF_OUT")
 	if dir == "" {
@@ -630,6 +1200,16 @@ func TestVerifToFileCorr(t *testing.T) {
 	scripts := make([]vfE8Script, n)
 	for i := range scripts {
 		scripts[i] = vfE8GenScript(r)
+		if os.Getenv("VF_E8_OLDGEN") != "" {
+			// mutation trials only: the input classes of before audit round 7 (never starved, no injected fault,
+			// max-in-flight >= 1) — shows what the new classes add
+			if scripts[i].MaxInFlight == 0 {
+				scripts[i].MaxInFlight = 1
+			}
+			for j := range scripts[i].Events {
+				scripts[i].Events[j].Starve, scripts[i].Events[j].Fault = 0, ""
+			}
+		}
 	}
 	if rp := os.Getenv("VF_E8_REPLAY"); rp != "" {
 		raw, err := os.ReadFile(rp)
@@ -674,6 +1254,49 @@ func TestVerifToFileCorr(t *testing.T) {
 		}
 		hist["exit:"+res.exit]++
 		fins += res.finOK
+		for k, v := range res.hist {
+			hist[k] += v
+		}
+		// how far did the script get (audit C30.3), and what did an injected fault lead to (C30.1)
+		scripted, executed := 0, 0
+		for _, ev := range scripts[i].Events {
+			if ev.Kind != "adv" && ev.Kind != "ext" {
+				scripted++
+			}
+		}
+		fault, lastSt := "", ""
+		for j, op := range res.ops {
+			w := strings.Fields(op)
+			switch w[1] {
+			case "msg", "hup", "termstop":
+				executed++
+			case "fault":
+				fault = strings.Join(w[2:], "-")
+				hist["fault:armed:"+fault]++
+			}
+			if j < len(res.impl) && strings.HasPrefix(res.impl[j], "st=") {
+				lastSt = strings.Fields(res.impl[j])[0]
+			}
+		}
+		for _, ev := range scripts[i].Events {
+			if ev.Kind == "tick" {
+				scripted--
+			}
+		}
+		hist["events:scripted-msg-hup-term"] += scripted
+		hist["events:executed-msg-hup-term"] += executed
+		switch {
+		case scripted == 0 || executed >= scripted:
+			hist["progress:all-events"]++
+		case 2*executed >= scripted:
+			hist["progress:half-or-more"]++
+		default:
+			hist["progress:less-than-half"]++
+		}
+		if fault != "" {
+			hist["fault:outcome:"+fault+"->"+lastSt]++
+		}
+		hist["end:"+lastSt]++
 		for _, o := range res.oracle {
 			fmt.Printf("ORACLE-FAIL case=%d %s\n", i, o)
 		}
@@ -743,6 +1366,89 @@ func TestVerifToFileGiveUp(t *testing.T) {
 		}
 		src.Down()
 	}
+}
+
+// TestVerifToFileStarved (parent binary, real clock; audit C30.2): the starvation input as a REAL go-nsq consumer
+// produces it — FileLogger connected to a stub nsqd, --sync-interval one hour, max-in-flight M: after k deliveries
+// with k = the smallest count for which go-nsq calls the connection starved (k >= int64(0.85*M), k < M) the router's
+// `sync || IsStarved()` must take the Sync + FIN path although neither the ticker nor `pos == cap(output)` asks
+// for it. Positive observations only (no "nothing happens for x ms" oracle): at least one FIN arrives (with a one-hour ticker and pos < cap only the starved path can send it), and there are at
+// least as many whole lines on disk as FINs.
+func TestVerifToFileStarved(t *testing.T) {
+	if os.Getenv("VF_E8_CASE") != "" {
+		t.Skip("parent only")
+	}
+	for _, c := range []struct{ mif, k int }{{2, 1}, {10, 8}, {3, 2}} {
+		root := t.TempDir()
+		src := vfNewStubNsqd()
+		opts := NewOptions()
+		opts.OutputDir, opts.WorkDir = root, root
+		opts.NSQDTCPAddrs = []string{src.addr}
+		opts.SyncInterval = time.Hour
+		opts.MaxInFlight = c.mif
+		opts.HostIdentifier = "h"
+		cfg := nsq.NewConfig()
+		cfg.MaxInFlight = opts.MaxInFlight
+		f, err := NewFileLogger(func(lvl lg.LogLevel, f string, args ...interface{}) {}, opts, "t", cfg)
+		if err != nil {
+			t.Fatal(err)
+		}
+		f.consumer.SetLoggerLevel(nsq.LogLevelMax)
+		done := make(chan struct{})
+		go func() {
+			f.router()
+			close(done)
+		}()
+		for i := 0; i < 2500 && !src.Subscribed(); i++ {
+			time.Sleep(2 * time.Millisecond)
+		}
+		var recs [][]byte
+		for i := 0; i < c.k; i++ {
+			body := []byte(fmt.Sprintf("starved-%d-%d", c.mif, i))
+			recs = append(recs, append(append([]byte{}, body...), '\n'))
+			src.Deliver(fmt.Sprintf("%016d", i), 1, body)
+		}
+		// wait for the first FIN (it can only come from the starved path); later ones are counted while they come
+		// (go-nsq's RDY of a fresh connection varies, so how many of the k are finished by the starved path is not fixed)
+		fins := 0
+		deadline := time.After(15 * time.Second)
+	wait:
+		for fins < c.k {
+			select {
+			case r := <-src.Resp:
+				if strings.HasPrefix(r, "FIN") {
+					fins++
+					if fins == 1 {
+						deadline = time.After(300 * time.Millisecond)
+					}
+				}
+			case <-deadline:
+				break wait
+			}
+		}
+		recs = nil // the finished ones are not identified by the stub's counter: check every delivered record that is on disk
+		tree2 := vfE8Tree2(root)
+		onDisk := 0
+		for _, c := range tree2 {
+			onDisk += bytes.Count(c, []byte("\n"))
+		}
+		missing := 0
+		if onDisk < fins { // every FIN is backed by a line of its own (bodies are distinct, one line each)
+			missing = fins - onDisk
+		}
+		_ = recs
+		fmt.Printf("STARVED max_in_flight=%d delivered=%d fins=%d records_without_line=%d\n", c.mif, c.k, fins, missing)
+		if fins > 0 && missing > 0 {
+			fmt.Printf("ORACLE-FAIL starved max_in_flight=%d: %d of %d finished records own no whole line of any file\n", c.mif, missing, c.k)
+		}
+		close(f.termChan)
+		select {
+		case <-done:
+		case <-time.After(5 * time.Second):
+		}
+		src.Down()
+	}
+	fmt.Printf("ORACLE-DONE starved\n")
 }
 
 func vfE8Tree2(root string) map[string][]byte {
